@@ -346,10 +346,38 @@ class Module:
     def func(self, qualname):
         fi = self.funcs.get(qualname)
         if fi is None:
+            fi = self._inherited(qualname)
+        if fi is None and "." not in qualname:
+            # imported here from the module of the package it moved to
+            r = self.repo.resolve_module_name(self, qualname)
+            if r.kind == "func":
+                fi = r.func
+        if fi is None:
             fi = self._relocated(qualname)
         if fi is None:
             raise AnalysisError(f"anchor vanished: function {self.name}:{qualname}")
         return fi
+
+    def _inherited(self, qualname, _seen=None):
+        """``Cls.method`` that the class no longer defines itself but inherits from a base class of the package"""
+        if qualname.count(".") != 1:
+            return None
+        cname, meth = qualname.split(".")
+        cls = next((n for n in self.tree.body if isinstance(n, ast.ClassDef) and n.name == cname), None)
+        if cls is None:
+            return None
+        _seen = _seen or set()
+        if (self.name, cname) in _seen:
+            return None
+        _seen.add((self.name, cname))
+        for b in cls.bases:
+            r = self.repo.resolve_expr(self, b)
+            if r.kind != "class":
+                continue
+            q = f"{r.node.name}.{meth}"
+            fi = r.mod.funcs.get(q) or r.mod._inherited(q, _seen)
+            if fi is not None:
+                return fi
 
     def func_any(self, *qualnames):
         """the first of several alternative anchors that exists (e.g. __post_init__ of a dataclass / __init__ of a plain class)"""
@@ -543,9 +571,59 @@ class Repo:
                 q = self._class_qual(mod, cls) + "." + expr.attr
                 if q in mod.funcs:
                     return Ref("func", func=mod.funcs[q], bound=True)
+                if q.count(".") == 1 and mod._inherited(q) is not None:
+                    return Ref("func", func=mod._inherited(q), bound=True)
+                return Ref("selfattr", cls=cls, mod=mod, attr=expr.attr)
+            ic = self.instance_class(scope, expr.value)
+            if ic is not None:
+                mod, cls = ic
+                q = self._class_qual(mod, cls) + "." + expr.attr
+                fi = mod.funcs.get(q) or (mod._inherited(q) if q.count(".") == 1 else None)
+                if fi is not None:
+                    return Ref("func", func=fi, bound=True)
                 return Ref("selfattr", cls=cls, mod=mod, attr=expr.attr)
             return UNKNOWN
         return UNKNOWN
+
+    def instance_class(self, scope, expr, _depth=0):
+        """(module, class node) when the expression provably is an instance of a class of the package: a constructor call,
+        a call of a function / classmethod of the package all of whose returns are such instances, or a name bound once to
+        one of those.  None otherwise (nothing is guessed)"""
+        if _depth > 4:
+            return None
+        if isinstance(expr, ast.Name):
+            r = self.resolve_name(scope, expr.id)
+            if r.kind == "local":
+                if len(r.entries) == 1 and r.entries[0][0] == "assign" and isinstance(r.entries[0][1], ast.AST):
+                    return self.instance_class(r.func, r.entries[0][1], _depth + 1)
+                return None
+            if r.kind == "value" and len(r.exprs) == 1:
+                return self.instance_class(r.mod, r.exprs[0], _depth + 1)
+            return None
+        if isinstance(expr, ast.Call) and isinstance(expr.func, (ast.Name, ast.Attribute)):
+            r = self.resolve_expr(scope, expr.func)
+            if r.kind == "class":
+                return (r.mod, r.node)
+            if r.kind == "func" and isinstance(r.func.node, ast.FunctionDef):
+                fn = r.func
+                rets = [n for n in fn.own_nodes() if isinstance(n, ast.Return)]
+                if not rets or any(isinstance(n, (ast.Yield, ast.YieldFrom)) for n in fn.own_nodes()):
+                    return None
+                is_cm = any(isinstance(d, ast.Name) and d.id == "classmethod" for d in fn.node.decorator_list)
+                found = set()
+                for rt in rets:
+                    v = rt.value
+                    if is_cm and fn.cls is not None and isinstance(v, ast.Call) and isinstance(v.func, ast.Name) and fn.params and v.func.id == fn.params[0]:
+                        found.add((fn.module.name, id(fn.cls)))
+                        one = (fn.module, fn.cls)
+                        continue
+                    ic = self.instance_class(fn, v, _depth + 1) if v is not None else None
+                    if ic is None:
+                        return None
+                    found.add((ic[0].name, id(ic[1])))
+                    one = ic
+                return one if len(found) == 1 else None
+        return None
 
     def _class_qual(self, mod, node):
         for q, c in mod.classes.items():
